@@ -15,6 +15,9 @@ def run(ctx):
     res.rule("C06-R4", "a rejected continuation or an invalid message discards the open message (erase); an unsegmented valid message is always delivered")
     res.rule("C06-R5", "fragments of another endpoint cannot enter: every table access is keyed by this frame's {device id, stream id} and the key "
                         "relation separates exactly the endpoints (C05-R1/R2)")
+    res.rule("C06-R6", "the stream's own numbering makes the counter test meaningful: within one encoder stream the sequence counter only advances by 1 "
+                        "per frame and is never reassigned on a path from encode() (C09-R1), so within fewer than 65536 frames no two frames carry the "
+                        "same counter and a continuation cannot fit behind another message's first segment")
     res.not_decided += ["byte identity of everything delivered under every fault sequence; recovery as a liveness statement"]
     D.rule_segtype_subject(res, "C06-R4", m)
     D.rule_accept_guard(res, "C06-R1", m)
@@ -27,6 +30,11 @@ def run(ctx):
     D.rule_key_equality(res, "C06-R5", m)
     D.rule_loop_typestate(res, "C06-R4", m)
     D.rule_unsegmented_delivered(res, "C06-R4", m)
+    from rules import encoder_rules as E
+    em = E.EncoderModel(fb)
+    E.rule_counter_writers(res, "C06-R6", em)
+    E.rule_counter_survives_encode(res, "C06-R6", em)
+    res.floor("C06-R6", 6)
     res.floor("C06-R1", 20)
     res.floor("C06-R2", 4)
     res.floor("C06-R3", 1)
